@@ -3224,9 +3224,12 @@ class DuckDBGenerator(generator.Generator):
                 func.set("expression", func.this)
                 func.set("this", order_col.this)
 
-        this = self.sql(expression, "this").rstrip(")")
+        # Drop only the call's own closing paren: render it without its comments, which are re-attached
+        # after the rebuilt call, so neither a trailing comment nor a nested call's ")" is touched
+        this = self.sql(func, comment=False)
+        this = this[:-1] if this.endswith(")") else this
 
-        return f"{this}{expression_sql})"
+        return self.maybe_comment(f"{this}{expression_sql})", comments=func.comments)
 
     def length_sql(self, expression: exp.Length) -> str:
         arg = expression.this
